@@ -50,10 +50,10 @@ def _agents(st):
     return tg, ss
 
 
-def _source_db(path, n):
+def _source_db(path, n, dt=DT):
     """Realtime run with all six agents, estimation on, written to ``path``."""
     tg, ss = _agents(START)
-    cfg = scen.config(START, n + 1, [scen.engine(1, tg, ss)], physics=DT, seed=3)
+    cfg = scen.config(START, n + 1, [scen.engine(1, tg, ss)], physics=dt, seed=3, truth_only=dt != DT)
     sc = scen.build(cfg, db_path=path)
     for _ in range(n):
         sc.stepForward()
@@ -131,10 +131,10 @@ def _swap_events():
     ]
 
 
-def _importer_config(n, mix, realtime_obs=True, truth_only=True, events=None):
+def _importer_config(n, mix, realtime_obs=True, truth_only=True, events=None, dt=DT):
     tg, ss = _agents(START)
     tg = [t for t in tg if t["id"] in TARGETS]
-    cfg = scen.config(START, n + 1, [scen.engine(1, tg, ss)], physics=DT, seed=3, truth_only=truth_only, events=events,
+    cfg = scen.config(START, n + 1, [scen.engine(1, tg, ss)], physics=dt, seed=3, truth_only=truth_only, events=events,
                       propagation={"target_realtime_propagation": mix not in ("targets", "both"),
                                    "sensor_realtime_propagation": mix not in ("sensors", "both")},
                       observation={"background": True, "realtime_observation": realtime_obs})
@@ -163,6 +163,9 @@ def items(tier, seed):
     for mix in ("targets", "sensors", "both"):
         for chunk in fw.chunked(names, 8):
             out.append(("ephem", mix, n, chunk))
+    # spans of a day and more (12 h steps): the days part of the elapsed time matters when a record is taken over
+    for mix in ("targets", "sensors", "both"):
+        out.append(("ephem", mix, 3, ["exact", "plus1"], 43200))
     for v in ("exact", "plus1"):
         out.append(("obs", "none", n, [v]))
         out.append(("obs", "targets", n, [v]))
@@ -191,9 +194,10 @@ def _imported_ids(mix):
 
 
 def _run_ephem(res, item, tmp):
-    _, mix, n, names = item
+    _, mix, n, names = item[:4]
+    dt = item[4] if len(item) > 4 else DT
     src = os.path.join(tmp, "source.sqlite3")
-    _source_db(src, n)
+    _source_db(src, n, dt)
     variants = {v[0]: v for v in _variants(n)}
     imported = _imported_ids(mix)
     for name in names:
@@ -202,30 +206,36 @@ def _run_ephem(res, item, tmp):
         _derive(src, path, keep, gap)
         rows, _ = _db_rows(path)
         sha0, dump0 = _sha(path), _logical_dump(path)
-        cfg = _importer_config(n, mix)
-        case = {"mix": mix, "db": name, "steps": n, "extras": len([a for a in keep if a in EXTRAS])}
+        cfg = _importer_config(n, mix, dt=dt)
+        case = {"mix": mix, "db": name, "steps": n, "step_s": dt, "extras": len([a for a in keep if a in EXTRAS])}
         # expected first failing step: an imported agent without a record at that epoch
         expect_fail = None
         for k in range(1, n + 1):
-            iso = (START + timedelta(seconds=k * DT)).isoformat(timespec="microseconds")
+            iso = (START + timedelta(seconds=k * dt)).isoformat(timespec="microseconds")
             if any((a, iso) not in rows for a in imported):
                 expect_fail = k
                 break
         sc = scen.build(cfg, importer_db_path=f"sqlite:///{path}")
-        failed_at, err_type, bad_state = None, None, None
+        failed_at, err_type, bad_state, bad_epoch = None, None, None, None
         for k in range(1, n + 1):
             try:
                 sc.stepForward()
+                sc.saveDatabaseOutput()
             except Exception as exc:  # noqa: BLE001
                 failed_at, err_type = k, type(exc).__name__
                 break
-            iso = (START + timedelta(seconds=k * DT)).isoformat(timespec="microseconds")
+            iso = (START + timedelta(seconds=k * dt)).isoformat(timespec="microseconds")
             agents = {**sc.target_agents, **sc.sensor_agents}
             for a in imported:
                 want = rows.get((a, iso))
                 got = np.asarray(agents[a].eci_state, dtype=float)
                 if want is None or not np.array_equal(got, want):
                     bad_state = bad_state or (k, a, got.tolist(), None if want is None else want.tolist())
+                # the agent that took the record over is AT the epoch of that record (what its output row is filed under)
+                t_a, jd_a = float(agents[a].time), float(agents[a].julian_date_epoch)
+                if abs(t_a - k * dt) > 1e-3 or abs(jd_a - float(sc.clock.julian_date_epoch)) > 2e-9:
+                    bad_epoch = bad_epoch or (k, a, {"agent_time": t_a, "clock_time": float(sc.clock.time), "agent_jd": jd_a,
+                                                      "clock_jd": float(sc.clock.julian_date_epoch)})
             res.observe(sorted((a, np.asarray(agents[a].eci_state).tobytes()) for a in agents))
         nontriv = gap is not None or set(keep) != set(TARGETS + SENSORS)
         ok_fail = (failed_at == expect_fail) and (failed_at is None or err_type == "MissingEphemerisError")
@@ -258,6 +268,31 @@ def _run_ephem(res, item, tmp):
             expected="agent.eci_state == importer row for that agent and epoch",
             item=("ephem", mix, n, [name]),
         )
+        res.case(
+            "ephem/agent_epoch_equals_record_epoch",
+            case,
+            bad_epoch is None,
+            nontrivial=nontriv or dt != DT,
+            signature="C19/ephem/agent_epoch_differs",
+            observed=bad_epoch,
+            expected="imported agent's time / Julian date == the step's epoch",
+            item=item if dt != DT else ("ephem", mix, n, [name]),
+        )
+        # ... and its truth rows in the OUTPUT database sit at the epochs of the run, one per step
+        if failed_at is None:
+            from sqlalchemy import text  # noqa: PLC0415
+
+            with sc.database.engine.connect() as conn:
+                out_rows = conn.execute(text("SELECT agent_id, julian_date FROM truth_ephemerides")).fetchall()
+            want_jd = [float(scen_jd) for scen_jd in
+                       (sc.clock.julian_date_start + (k * dt) / 86400.0 for k in range(0, n + 1))]
+            bad_rows = []
+            for a in imported:
+                got_jd = sorted(float(r[1]) for r in out_rows if int(r[0]) == a)
+                if len(got_jd) != len(want_jd) or any(abs(x - y) > 2e-9 for x, y in zip(got_jd, want_jd)):
+                    bad_rows.append((a, got_jd[:4], want_jd[:4]))
+            res.case("ephem/output_rows_at_run_epochs", case, not bad_rows, nontrivial=nontriv or dt != DT,
+                     signature="C19/ephem/output_rows_misfiled", observed=bad_rows[:1], item=item if dt != DT else ("ephem", mix, n, [name]))
         for eng in sc.tasking_engines.values():
             if eng._importer_db is not None:  # noqa: SLF001
                 eng._importer_db.engine.dispose()  # noqa: SLF001
